@@ -60,15 +60,15 @@ UNIT = {
         'DependencyKeyIDs::push_back': {
             'requires': V + ['self->keys.len < self->keys.cap && self->flags.len < self->flags.cap', 'orderOnlyFlag <= 1 && singleUseFlag <= 1'],
             'assigns': ['self->keys.len', 'self->flags.len', '__CPROVER_object_whole(self->keys.ptr)', '__CPROVER_object_whole(self->flags.ptr)'],
-            'ensures': [('P:C01,P:C03', 'self->keys.len == OLD(self->keys.len) + 1 && self->flags.len == self->keys.len && self->keys.ptr[self->keys.len - 1]._value == id._value && '
+            'ensures': [('P:C01,P:C03,P:C02', 'self->keys.len == OLD(self->keys.len) + 1 && self->flags.len == self->keys.len && self->keys.ptr[self->keys.len - 1]._value == id._value && '
                                         '(self->flags.ptr[self->flags.len - 1] & 1) == orderOnlyFlag && ((self->flags.ptr[self->flags.len - 1] >> 1) & 1) == singleUseFlag')]},
         'DependencyKeyIDs::set': {
             'requires': V + ['n < self->keys.len', 'orderOnlyFlag <= 1 && singleUseFlag <= 1'],
             'assigns': ['__CPROVER_object_whole(self->keys.ptr)', '__CPROVER_object_whole(self->flags.ptr)'],
-            'ensures': [('P:C01,P:C03', 'self->keys.ptr[n]._value == id._value && (self->flags.ptr[n] & 1) == orderOnlyFlag && ((self->flags.ptr[n] >> 1) & 1) == singleUseFlag')]},
+            'ensures': [('P:C01,P:C03,P:C02', 'self->keys.ptr[n]._value == id._value && (self->flags.ptr[n] & 1) == orderOnlyFlag && ((self->flags.ptr[n] >> 1) & 1) == singleUseFlag')]},
         'DependencyKeyIDs::operator[]': {
             'cname': 'DependencyKeyIDs_index', 'requires': V + ['n < self->keys.len'], 'assigns': [],
-            'ensures': [('P:C01,P:C03', 'RESULT.keyID._value == self->keys.ptr[n]._value && (RESULT.orderOnly != 0) == ((self->flags.ptr[n] & 1) != 0) && (RESULT.singleUse != 0) == (((self->flags.ptr[n] >> 1) & 1) != 0)')]},
+            'ensures': [('P:C01,P:C03,P:C02', 'RESULT.keyID._value == self->keys.ptr[n]._value && (RESULT.orderOnly != 0) == ((self->flags.ptr[n] & 1) != 0) && (RESULT.singleUse != 0) == (((self->flags.ptr[n] >> 1) & 1) != 0)')]},
         'DependencyKeyIDs::cleanSingleUseDependencies': {
             'requires': ['__CPROVER_is_fresh(self, sizeof(*self))', 'VEC_OKN(self->keys, struct KeyID, ND)', 'VEC_OKN(self->flags, uint8_t, ND)', 'self->keys.len == self->flags.len', 'g_n0 == self->keys.len',
                          ' && '.join('(%d < g_n0 ==> (g_k0[%d] == self->keys.ptr[%d]._value && g_f0[%d] == self->flags.ptr[%d]))' % (k, k, k, k, k) for k in range(4))],
